@@ -26,6 +26,28 @@ def gen_case(rng, k):
         for _ in range(rng.randint(1, 6)):
             decls.append(gen.gen_struct(ctx, ctx.fresh("S"), free=free and rng.random() < 0.5,
                                         big_counts=rng.random() < 0.2, small_bias=0.3))
+        if fi == nfiles - 1 and k % 2 == 1:
+            # near-valid: one small perturbation of one valid struct (adjacent fields swapped, a
+            # field dropped, a count changed by one, a type replaced by one of another size); the
+            # verifier must still check every member, not only the first that raises the alignment
+            cands = [d for d in decls if d[0] == "struct" and len(d[2]) >= 2]
+            if cands:
+                d = rng.choice(cands)
+                fields = list(d[2])
+                op = rng.choice(["swap", "swap", "drop", "count", "type"])
+                i = rng.randrange(len(fields) - 1)
+                if op == "swap":
+                    fields[i], fields[i + 1] = fields[i + 1], fields[i]
+                elif op == "drop":
+                    del fields[i]
+                elif op == "count":
+                    t, c, n = fields[i]
+                    fields[i] = (t, max(1, c + rng.choice([-1, 1])), n)
+                else:
+                    t, c, n = fields[i]
+                    if t in gen.PSIZE:
+                        fields[i] = (rng.choice([x for x in gen.PRIMS if gen.PSIZE[x] != gen.PSIZE[t]]), c, n)
+                decls[decls.index(d)] = ("struct", d[1], fields)
         if fi == nfiles - 1:
             # use some structs as parameters so that they are reachable from methods too
             ms = []
@@ -43,7 +65,22 @@ def corpus_cases():
     inc = {"path": "inc0.idl", "includes": [], "decls": [("struct", "Mis", [("uint8", 1, "a"), ("uint32", 1, "b")])]}
     main = {"path": "main.idl", "includes": ["inc0.idl"],
             "decls": [("iface", "IUse", None, [("method", "f", [("in", "Mis", None, "m")], False, None)])]}
-    return [{"files": [inc, main], "main": "main.idl", "idirs": []}]
+    out = [{"files": [inc, main], "main": "main.idl", "idirs": []}]
+    # every ordering of three member sizes with a tail that makes the packed size a multiple of
+    # the largest alignment: each member's offset must be checked, whichever came before it
+    T = {1: "uint8", 2: "uint16", 4: "uint32", 8: "uint64"}
+    for s1 in (1, 2, 4, 8):
+        for s2 in (1, 2, 4, 8):
+            for s3 in (1, 2, 4, 8):
+                fields = [(T[s1], 1, "a"), (T[s2], 1, "b"), (T[s3], 1, "c")]
+                pad = (-(s1 + s2 + s3)) % max(s1, s2, s3)
+                if pad:
+                    fields.append(("uint8", pad, "d"))
+                out.append({"files": [{"path": "main.idl", "includes": [], "decls": [
+                    ("struct", "Tri", fields),
+                    ("iface", "ITri", None, [("method", "put", [("in", "Tri", None, "r"), ("out", "Tri", None, "w")], False, None)])]}],
+                    "main": "main.idl", "idirs": []})
+    return out
 
 
 def structs_of(f):
